@@ -48,6 +48,10 @@ const Statement *Statement::execute(Context& ctx) const
   bool trace = ctx.trace();
   _level = ctx.execLevel();
   if (trace) trace_pre(ctx);
+#ifdef BLOC_VERIF
+  if (verif_hooks.on_statement)
+    verif_hooks.on_statement(ctx, this);
+#endif
   const Statement * next = doit(ctx);
   if (trace) trace_post(ctx);
   ctx.onStatementEnd(this);
